@@ -362,6 +362,7 @@ def num_events(ctx, ty, dtype):
             ev.append({"chk": "grad_zero_slot", "ty": ty, "dt": dt, "err": 1, "finite": fin, "allow": 0,
                        "cell": {"rot": cell[0], "trans": cell[1], "sigma": cell[2]}, "x": x, "a": []})
 
+    single1, single2 = [], []        # (cell, inputs, unbatched Jacobian) of P1 / P2, re-evaluated as ONE batched call below
     for cell in cells:
         xv = alg(cell)
         # ---- P1: Act(Exp(x), p) w.r.t. the algebra input x (ordinary Jacobian)
@@ -369,6 +370,7 @@ def num_events(ctx, ty, dtype):
         pv = [float(rng.randint(-2, 2)) or 1.0 for _ in range(3)]
         p = torch.tensor(pv, dtype=dtype)
         got = rows_of(x.Exp().Act(p), x)                       # 3 x n
+        single1.append((cell, xv, pv, got))
         xf = x.tensor().detach().tolist()
         ph = mp.matrix(pv + [1.0])
         ref_cols = []
@@ -388,6 +390,7 @@ def num_events(ctx, ty, dtype):
         got = [row[:n] for row in rows]
         zero_ok = all(row[n] == 0 for row in rows) and all(len(row) == n + 1 for row in rows)
         Xl = Xv.tolist()
+        single2.append((cell, Xl, rows))
         cols = []
         for i in range(n):
             e = [0.0] * n
@@ -426,6 +429,30 @@ def num_events(ctx, ty, dtype):
             zl = R.log_ref(ty, R.exp_ref(ty, xf) * My) if ty == "Sim3" else None
             a3 = 0 if ty != "Sim3" else min(R.CAP, allow_for(xf, 5040, scale3) + allow_for(zl, 30240, scale3))
             emit("grad_logexp", got, ref, cell, a3, x=xf)
+    # ---- batched evaluation: all cells (identity, tiny, generic, large rotations mixed) in ONE call; the items of a batch are
+    # independent, so row r of item i's Jacobian is the gradient of sum_i y[i, r] - it must equal the item evaluated alone
+    def batched(chk_rows, singles):
+        for i, (cell, xin, alone) in enumerate(singles):
+            rows_b = [row[i] for row in chk_rows]
+            flat_a = [v for row in alone for v in row]
+            flat_b = [v for row in rows_b for v in row]
+            fin = all(math.isfinite(v) for v in flat_b) and len(flat_a) == len(flat_b)
+            scale = max(max(abs(v) for v in flat_a), 1e-290)
+            err = R.CAP if not fin else int(min(math.ceil(max(abs(a - b) for a, b in zip(flat_a, flat_b)) / scale / eps_f), R.CAP))
+            ev.append({"chk": "grad_batched", "ty": ty, "dt": dt, "err": err, "finite": fin, "allow": 0,
+                       "cell": {"rot": cell[0], "trans": cell[1], "sigma": cell[2]}, "x": xin, "a": []})
+
+    eps_f = float(torch.finfo(dtype).eps)
+    if len(single1) > 1:
+        xb = L.mkalg(ty, [s_[1] for s_ in single1], dtype).requires_grad_(True)
+        pb = torch.tensor([s_[2] for s_ in single1], dtype=dtype)
+        yb = xb.Exp().Act(pb)
+        rows_b = [torch.autograd.grad(yb[:, r].sum(), xb, retain_graph=True)[0].tolist() for r in range(3)]
+        batched(rows_b, [(c, xv_, g) for c, xv_, _, g in single1])
+        Xb = pp.LieTensor(torch.tensor([s_[1] for s_ in single2], dtype=dtype), ltype=getattr(pp, ty + "_type")).requires_grad_(True)
+        lb = Xb.Log().tensor()
+        rows_b = [torch.autograd.grad(lb[:, r].sum(), Xb, retain_graph=True)[0].tolist() for r in range(n)]
+        batched(rows_b, single2)
     # ---- P4: Jinvp(X, p) away from the zero rotation, w.r.t. X (left perturbation) and p.  Sim3 is left out: its Jinvp is a
     # documented truncated series and the property gives no bound for the derivative of the truncation.
     if ty != "Sim3":
